@@ -44,6 +44,7 @@ struct RunOpts {
 	bool cap_check = true;
 	bool timer_duration_check = false; // C14
 	bool allow_timer_join = false;
+	bool framing_check = false; // C10: accepted byte stream = in-order concatenation of whole generated frames
 	bool ws_check = true;      // C12/C13: handshake answers, close statuses, pongs
 	bool allow_reset_join = false; // a reset racing with deliveries to that connection is a fault (C05/C11 domain)
 	std::set<std::string> ignore_rules; // known findings suppressed by rule id
@@ -846,6 +847,55 @@ public:
 		return out;
 	}
 
+	// C10. G = frames the daemon generated, as seen by the kernel: every writev() with more than one buffer passes the pending
+	// bytes first and the parts of a new frame after them. A = bytes the kernel accepted. A must be the concatenation, in order,
+	// of whole frames of G (a frame may be missing only as a whole), optionally followed by a proper prefix of a later frame if
+	// the connection was closed afterwards or the daemon still holds unsent bytes.
+	void framing_judge()
+	{
+		simk::Kernel &k = simk::K();
+		for (size_t ci = 0; ci < cc.size(); ci++) {
+			const simk::Conn &kc = k.conns[cc[ci].kc];
+			if (!kc.accepted) continue;
+			std::vector<std::string> G;
+			std::map<uint64_t, int> calls_per_iter; int worst = 0;
+			bool pending_left = false;
+			for (auto &w : kc.writes) {
+				if (w.iov.size() >= 2) { std::string f; for (size_t i = 1; i < w.iov.size(); i++) f += w.iov[i]; if (!f.empty()) G.push_back(f); }
+				size_t total = 0; for (auto &b : w.iov) total += b.size();
+				pending_left = !(w.result >= 0 && (size_t)w.result == total);
+				int n = ++calls_per_iter[w.loop_iter]; if (n > worst) worst = n;
+			}
+			const std::string &A = kc.out;
+			vd.stat["frames_generated"] += (long)G.size();
+			// reach[p] = smallest number of leading frames of G that can produce exactly A[0..p)
+			std::map<size_t, size_t> reach; reach[0] = 0;
+			for (size_t i = 0; i < G.size(); i++) {
+				std::vector<std::pair<size_t, size_t>> add;
+				for (auto &r : reach) if (r.second <= i && A.compare(r.first, G[i].size(), G[i]) == 0 && r.first + G[i].size() <= A.size()) add.push_back({r.first + G[i].size(), i + 1});
+				for (auto &a : add) { auto it = reach.find(a.first); if (it == reach.end() || it->second > a.second) reach[a.first] = a.second; }
+			}
+			bool ok = reach.count(A.size()) > 0;
+			if (!ok) {
+				// a proper prefix of a later frame at the very end is tolerated if nothing can follow it or the rest is still queued
+				bool may_have_tail = kc.daemon_closed || pending_left;
+				for (auto &r : reach) {
+					if (!may_have_tail) break;
+					std::string tail = A.substr(r.first);
+					for (size_t j = r.second; j < G.size() && !ok; j++) if (tail.size() < G[j].size() && G[j].compare(0, tail.size(), tail) == 0) ok = true;
+					if (ok) break;
+				}
+			}
+			if (!ok) {
+				size_t best = 0; for (auto &r : reach) best = std::max(best, r.first);
+				vd.add("C10/stream-not-whole-frames", "conn " + std::to_string(ci) + ": after " + std::to_string(best) + " bytes of whole frames the accepted stream continues with " + tohex(A.substr(best, 24)) + " (" + std::to_string(A.size()) + " bytes accepted, " + std::to_string(G.size()) + " frames generated, closed=" + std::to_string(kc.daemon_closed) + ")");
+			}
+			if (worst > 64) vd.add("C10/spinning", "conn " + std::to_string(ci) + ": " + std::to_string(worst) + " writev calls in one event-loop iteration");
+			bool partial_seen = false; for (auto &w : kc.writes) { size_t total = 0; for (auto &b : w.iov) total += b.size(); if (w.result > 0 && (size_t)w.result < total) partial_seen = true; }
+			if (partial_seen) vd.stat["conns_with_partial_write"]++;
+		}
+	}
+
 	static bool utf8_ok(const std::string &s)
 	{
 		size_t i = 0, n = s.size();
@@ -1251,6 +1301,7 @@ public:
 			if (cjet_get_alloc_size() != 0) vd.add("C07/accounting-nonzero-at-exit", std::to_string(cjet_get_alloc_size()));
 		}
 		if (opt.hygiene_check) for (auto &h : k.hygiene) vd.add("C07/hygiene", h);
+		if (opt.framing_check) framing_judge();
 		if (custom_final) custom_final(*this);
 		for (size_t ci = 0; ci < cc.size(); ci++) {
 			if ((int)ci == probe_conn) continue;
